@@ -3,6 +3,7 @@ C07 — stop discipline: That's all, Rounds, Stand, stop-at-rounds; bells left a
 -/
 import Wheatley.Props.C06
 import Wheatley.Lemmas.Cli
+import Wheatley.Lemmas.Handlers
 namespace Wheatley.C07
 open Wheatley.C06
 
@@ -189,5 +190,203 @@ theorem cli_stop_at_rounds (c : Parse.Chars) (os : List Cli.Opt) (u : Option (Li
     (h : Cli.consoleMain c os u = .built cfg) :
     cfg.sar = (decide (Cli.Opt.sar ∈ os) || decide (Cli.Opt.handbell ∈ os)) :=
   (Cli.main_built c os u cfg h).2.1
+
+/-! ### Nothing more until the next Look To - for the whole run -/
+
+section Idle
+variable {K : Type} [Num K]
+
+/-- Wheatley is not ringing and the main thread is in (or on its way into) the idle loop; no Look To handler is
+asleep on the socket thread. -/
+def Idle (w : World K) : Prop :=
+  w.bot.isRinging = false ∧ w.suspended = none ∧
+  (w.pc = .outerTop ∨ w.pc = .idleCheck ∨ w.pc = .idleSlept ∨ w.pc = .done ∨ ∃ it, w.pc = .waitLoaded it none)
+
+/-- Any event but the call "Look to". -/
+def NotLookTo : Ev → Prop
+  | .msg (.call c) => c ≠ Generated.call_LOOK_TO
+  | _ => True
+
+theorem foldl_applyOut_bot_susp (wt : K → K) (ct : K) (outs : List Out) :
+    ∀ (w : World K), (outs.foldl (World.applyOut wt ct) w).bot = w.bot := by
+  intro w
+  exact (foldl_applyOut_bot_crashed wt ct outs w).1
+
+theorem withReg_suspended (w : World K) (f : (List (K × K × K) → K × K) → Reg K) :
+    (w.withReg f).suspended = w.suspended := by
+  unfold World.withReg
+  simp only []
+  exact ite_proj (fun x : World K => x.suspended) _ _ _ _ rfl rfl
+
+theorem applyOut_suspended (wt : K → K) (ct : K) (w : World K) (o : Out) :
+    (World.applyOut wt ct w o).suspended = w.suspended := by
+  unfold World.applyOut
+  cases o <;> simp only []
+  all_goals first
+    | (split <;> rfl)
+    | skip
+  · split
+    · rfl
+    · split
+      · exact withReg_suspended _ _
+      · exact withReg_suspended _ _
+  · split
+    · rfl
+    · exact withReg_suspended _ _
+  · split
+    · rfl
+    · split
+      · split
+        · split <;> rfl
+        all_goals rfl
+      · split
+        · split
+          · split <;> rfl
+          all_goals rfl
+        · rfl
+
+theorem foldl_applyOut_suspended (wt : K → K) (ct : K) (outs : List Out) :
+    ∀ (w : World K), (outs.foldl (World.applyOut wt ct) w).suspended = w.suspended := by
+  induction outs with
+  | nil => intro w; rfl
+  | cons o rest ih => intro w; simp only [List.foldl_cons]; rw [ih, applyOut_suspended]
+
+/-- An event that is not Look To leaves an idle Wheatley idle. -/
+theorem deliver_idle (wt : K → K) (w : World K) (e : Ev) (hq : NotLookTo e) (h : Idle w) :
+    Idle (World.deliver wt w e) := by
+  obtain ⟨hr, hs, hpc⟩ := h
+  obtain ⟨dp, _⟩ := deliver_never_rings wt w e
+  cases e with
+  | resume =>
+    have : World.deliver wt w .resume = w := by
+      unfold World.deliver
+      simp only [hs]
+    rw [this]
+    exact ⟨hr, hs, hpc⟩
+  | msg m =>
+    have hm : m ≠ .call Generated.call_LOOK_TO := by
+      intro e
+      subst e
+      exact hq rfl
+    have hsus : w.lookToSuspends m = none := by
+      unfold World.lookToSuspends
+      cases m with
+      | call c =>
+        have hc : (c == Generated.call_LOOK_TO) = false := by
+          have : c ≠ Generated.call_LOOK_TO := fun e => hm (by rw [e])
+          simpa using this
+        simp [hc]
+      | _ => rfl
+    have hd : World.deliver wt w (.msg m) = w.deliverMsg wt m := by
+      unfold World.deliver
+      simp only [hsus]
+    have e1 : (List.foldl (World.applyOut wt w.now) ({ w with bot := (w.bot.onMsg m).1 } : World K)
+        (w.bot.onMsg m).2).bot.isRinging = false := by
+      rw [foldl_applyOut_bot_susp]; exact only_look_to_starts w.bot m hr hm
+    have e2 : (List.foldl (World.applyOut wt w.now) ({ w with bot := (w.bot.onMsg m).1 } : World K)
+        (w.bot.onMsg m).2).suspended = none := by
+      rw [foldl_applyOut_suspended]; exact hs
+    refine ⟨?_, ?_, by rw [dp]; exact hpc⟩
+    · rw [hd]
+      unfold World.deliverMsg
+      simp only []
+      split
+      · exact e1
+      · exact e1
+    · rw [hd]
+      unfold World.deliverMsg
+      simp only []
+      split
+      · exact e2
+      · exact e2
+
+theorem sleep_go_idle (wt : K → K) (limit : K) :
+    ∀ (events : List (K × Ev)) (w : World K), (∀ ev ∈ events, NotLookTo ev.2) → Idle w →
+      Idle (World.sleep.go wt limit w events).1 ∧ (∀ ev ∈ (World.sleep.go wt limit w events).2, NotLookTo ev.2) := by
+  intro events
+  induction events with
+  | nil => intro w _ h; exact ⟨h, by intro ev hev; cases hev⟩
+  | cons ev rest ih =>
+    intro w hq h
+    obtain ⟨t, m⟩ := ev
+    unfold World.sleep.go
+    split
+    · apply ih _ (fun ev' h' => hq ev' (by simp [h']))
+      apply deliver_idle wt _ m (hq (t, m) (by simp))
+      split
+      · exact h
+      · exact h
+    · exact ⟨h, hq⟩
+
+theorem sleep_idle (wt : K → K) (endTime : K) (w : World K) (d : K) (events : List (K × Ev))
+    (hq : ∀ ev ∈ events, NotLookTo ev.2) (h : Idle w) :
+    Idle (World.sleep wt endTime w d events).1 ∧ (∀ ev ∈ (World.sleep wt endTime w d events).2.1, NotLookTo ev.2) := by
+  unfold World.sleep
+  simp only []
+  split
+  · exact sleep_go_idle wt endTime events w hq h
+  · obtain ⟨h1, h2⟩ := sleep_go_idle wt (w.now + d) events w hq h
+    exact ⟨h1, h2⟩
+
+/-- A step of the idle main thread emits nothing at all and stays idle. -/
+theorem mainStep_idle (wt : K → K) (w : World K) (h : Idle w) :
+    Idle (w.mainStep wt).1 ∧ (w.mainStep wt).1.obs = w.obs := by
+  obtain ⟨hr, hs, hpc⟩ := h
+  rcases hpc with hp | hp | hp | hp | ⟨it, hp⟩
+  · unfold World.mainStep; simp only [hp]
+    exact ⟨⟨hr, hs, Or.inr (Or.inl rfl)⟩, trivial⟩
+  · unfold World.mainStep; simp only [hp, hr, Bool.not_false, if_true]
+    exact ⟨⟨hr, hs, Or.inr (Or.inr (Or.inl rfl))⟩, trivial⟩
+  · unfold World.mainStep; simp only [hp]
+    split
+    · exact ⟨⟨hr, hs, Or.inr (Or.inr (Or.inr (Or.inl rfl)))⟩, rfl⟩
+    · exact ⟨⟨hr, hs, Or.inr (Or.inl rfl)⟩, rfl⟩
+  · unfold World.mainStep; simp only [hp]
+    exact ⟨⟨hr, hs, Or.inr (Or.inr (Or.inr (Or.inl hp)))⟩, trivial⟩
+  · unfold World.mainStep; simp only [hp]
+    split
+    · split
+      · exact ⟨⟨hr, hs, Or.inl rfl⟩, rfl⟩
+      · exact ⟨⟨hr, hs, Or.inr (Or.inr (Or.inr (Or.inr ⟨it + 1, rfl⟩)))⟩, rfl⟩
+    · exact ⟨⟨hr, hs, Or.inr (Or.inr (Or.inr (Or.inl rfl)))⟩, rfl⟩
+
+/-- **Nothing more until the next Look To, however long, whatever else arrives**: Wheatley is not ringing (it has
+stood, or never started).  If none of the events still to come is the call "Look to" - they may be anything else:
+Go, Bob, That's all, strikes of any bell, assignments, settings, selections, size changes, Stop Touch - then for the
+whole rest of the run, of whatever length, it strikes nothing. -/
+theorem silent_until_look_to (wt : K → K) (endTime : K) :
+    ∀ (fuel : Nat) (w : World K) (events : List (K × Ev)), Idle w → (∀ ev ∈ events, NotLookTo ev.2) →
+      ringsOf (World.run wt endTime fuel w events).1.obs = ringsOf w.obs := by
+  intro fuel
+  induction fuel with
+  | zero => intro w events _ _; rfl
+  | succ fuel ih =>
+    intro w events h hq
+    obtain ⟨hi, ho⟩ := mainStep_idle wt w h
+    unfold World.run
+    split
+    · rename_i w1 heq; rw [heq] at ho; exact congrArg ringsOf ho
+    · rename_i w1 heq
+      rw [heq] at hi ho
+      rw [ih w1 events hi hq]; exact congrArg ringsOf ho
+    · rename_i w1 d heq
+      rw [heq] at hi ho
+      obtain ⟨sp, sr⟩ := sleep_never_rings wt endTime w1 d events
+      obtain ⟨si, sq⟩ := sleep_idle wt endTime w1 d events hq hi
+      simp only []
+      split
+      · rw [sr]; exact congrArg ringsOf ho
+      · rw [ih _ _ si sq, sr]; exact congrArg ringsOf ho
+
+/-- In particular: from the moment it is launched (not spawned by a Look To), Wheatley strikes nothing before the
+first Look To. -/
+theorem nothing_before_the_first_look_to (wt : K → K) (endTime now : K) (g : Gen) (u s c : Bool)
+    (n : Option String) (id : Option Nat) (rh : Rh K) (tape : List (K × K)) (fuel : Nat) (events : List (K × Ev))
+    (hq : ∀ ev ∈ events, NotLookTo ev.2) :
+    ringsOf (World.run wt endTime fuel (World.init now (Bot.init g u s c n id) rh tape none) events).1.obs = [] := by
+  rw [silent_until_look_to wt endTime fuel _ events ⟨rfl, rfl, Or.inr (Or.inr (Or.inr (Or.inr ⟨0, rfl⟩)))⟩ hq]
+  simp [World.init, ringsOf, Out.isRing]
+
+end Idle
 
 end Wheatley.C07
